@@ -88,6 +88,72 @@ def make_value(spec):
     raise ValueError(k)
 
 
+XT = {"f": "float", "d": "double", "ld": "long double", "fc": "float _Complex", "dc": "double _Complex"}
+
+
+def f32_to_py(bits):
+    return struct.unpack("<f", struct.pack("<I", bits))[0]
+
+
+def make_cdata(ffi, spec):
+    """a primitive cdata source -> (cdata, effective description as the Coq model sees it)"""
+    k = spec["k"]
+    if k == "cd_float":
+        cd = ffi.cast("float", f32_to_py(spec["bits"]))
+        return cd, dict(k=k, bits=spec["bits"])
+    if k == "cd_double":
+        cd = ffi.cast("double", bits2d(spec["bits"]))
+        return cd, dict(k=k, bits=d2bits(float(cd)))
+    if k == "cd_int":
+        cd = ffi.cast(spec["ctype"], int(spec["n"]))
+        return cd, dict(k=k, ctype=spec["ctype"], n=str(int(cd)))
+    if k == "cd_char":
+        cd = ffi.cast("char", spec["b"])
+        return cd, dict(k=k, b=ord(bytes(ffi.buffer(ffi.new("char *", cd)))))
+    if k == "cd_wchar":
+        cd = ffi.cast(spec["ctype"], spec["c"])
+        return cd, dict(k=k, ctype=spec["ctype"], c=int(cd))
+    if k == "cd_ld":
+        src = ffi.new("long double *")
+        ffi.buffer(src)[0:10] = bytes.fromhex(spec["raw"])
+        cd = src[0]
+        return cd, dict(k=k, raw=spec["raw"])
+    if k == "cd_complex":
+        if spec["ck"] == "fc":
+            c = complex(f32_to_py(spec["re"]), f32_to_py(spec["im"]))
+        else:
+            c = complex(bits2d(spec["re"]), bits2d(spec["im"]))
+        cd = ffi.cast(XT[spec["ck"]], c)
+        return cd, dict(k=k, ck=spec["ck"], re=spec["re"], im=spec["im"])
+    if k == "cd_other":
+        return ffi.cast("void *", 0), dict(k=k)
+    raise ValueError(k)
+
+
+def run_x(env, t, path, v):
+    """cdata sources / long double target: -> dict(stored=[component patterns (10 value bytes for long double)])"""
+    ffi = env.ffi
+    T = XT[t]
+    size = {"f": 4, "d": 8, "ld": 16, "fc": 8, "dc": 16}[t]
+    if path == "cast":
+        c = ffi.cast(T, v)
+        raw = bytes(ffi.buffer(ffi.new(T + " *", c)))
+    elif path == "new":
+        raw = bytes(ffi.buffer(ffi.new(T + " *", v)))
+    elif path == "item":
+        a = ffi.new(T + "[3]")
+        a[1] = v
+        buf = bytes(ffi.buffer(a))
+        raw = buf[size:2 * size]
+        if any(buf[:size]) or any(buf[2 * size:]):
+            return dict(stored=[], clobber=True)
+    else:
+        raise ValueError(path)
+    if t == "ld":
+        return dict(stored=[int.from_bytes(raw[:10], "little")])
+    return dict(stored=comps(t, raw))
+
+
 def comps(t, raw):
     n, sz = NCOMP[t], CSIZE[t]
     assert len(raw) == n * sz, (t, len(raw))
@@ -246,6 +312,14 @@ def one(env, case):
         if case["kind"] == "fp":
             v, eff = make_value(case["v"])
             r = run_store(env, case["t"], case["path"], v)
+            r["eff"] = eff
+            return r
+        if case["kind"] == "xfp":
+            if case["v"]["k"].startswith("cd_"):
+                v, eff = make_cdata(env.ffi, case["v"])
+            else:
+                v, eff = make_value(case["v"])
+            r = run_x(env, case["t"], case["path"], v)
             r["eff"] = eff
             return r
         if case["kind"] == "api_cold":
